@@ -11,8 +11,10 @@ import (
 	"context"
 	"net"
 	"os"
+	"runtime"
 	"strconv"
 	"sync"
+	"sync/atomic"
 	"testing"
 	"time"
 
@@ -53,6 +55,13 @@ func TestVerifC09Race(t *testing.T) {
 		}
 		rm.PhantomSelector = sel
 		c09RaceSetup(rm)
+		if it%4 >= 2 {
+			// short lifetimes: the sweeper really expires (valid and used) registrations while the
+			// workers validate others, so the expiry-side bookkeeping runs beside the ingest-side one
+			rm.registeredDecoys.timeoutUnused = 150 * time.Microsecond
+			rm.registeredDecoys.timeoutActive = 300 * time.Microsecond
+		}
+		var pubDone atomic.Bool
 		ctx, cancel := context.WithCancel(context.Background())
 		regChan := make(chan interface{}, 1000)
 		wg := new(sync.WaitGroup)
@@ -65,6 +74,7 @@ func TestVerifC09Race(t *testing.T) {
 			for i := 0; i < 30; i++ {
 				regChan <- w.message(i%11, "203.0.113.7:443")
 			}
+			pubDone.Store(true)
 		}()
 		go func() { // connection handler
 			defer bg.Done()
@@ -84,9 +94,12 @@ func TestVerifC09Race(t *testing.T) {
 		}()
 		go func() { // sweeper and stats
 			defer bg.Done()
-			for i := 0; i < 10; i++ {
+			for i := 0; i < 10 || (!pubDone.Load() && i < 400); i++ {
 				rm.RemoveOldRegistrations()
 				rm.PrintAndReset(rm.Logger)
+				if i >= 10 {
+					runtime.Gosched()
+				}
 			}
 		}()
 		go func() { // reload
